@@ -331,7 +331,19 @@ def functional_fns(D: int) -> List[Fn]:
     add("normalize_flow", lambda v: (U.normalize_flow(v[0]) * wF).sum(), [flow(39, 0.5)], ["flow"])
     add("spatial_derivatives", lambda v: sum((o * rnd(*o.shape, seed=16)).sum() for o in U.spatial_derivatives(v[0], order=1).values()), [img], ["image"])
     add("image_resize", lambda v: (lambda o: (o * rnd(*o.shape, seed=17)).sum())(U.grid_resize(v[0], size=tuple(s + 2 for s in reversed(sp)), mode="linear")), [img], ["image"])
+    import deepali.core.affine as A_
+
+    if D == 2:
+        add("euler_rotation_angles(matrix)[2D]", lambda v: (A_.euler_rotation_angles(A_.euler_rotation_matrix(v[0])) * rnd(1, 1, seed=18)).sum(), [rnd(1, 1, seed=19, scale=0.6)], ["angles"])
     if D == 3:
+        for ordr in ("ZXZ", "XZX"):
+            add(f"euler_rotation_angles(matrix)[{ordr}]", lambda v, ordr=ordr: (A_.euler_rotation_angles(A_.euler_rotation_matrix(v[0], order=ordr), order=ordr) * rnd(1, 3, seed=18)).sum(),
+                [rnd(1, 3, seed=19, scale=0.5) + torch.tensor([[0.2, 0.9, -0.3]], dtype=T64)], ["angles"])
+        aa0 = rnd(1, 3, seed=23, scale=0.7) + 0.2
+        add("angle_axis_to_rotation_matrix", lambda v: (U.angle_axis_to_rotation_matrix(v[0]) * rnd(1, 3, 3, seed=18)).sum(), [aa0], ["angle_axis"])
+        add("angle_axis_to_quaternion", lambda v: (U.angle_axis_to_quaternion(v[0]) * rnd(1, 4, seed=18)).sum(), [aa0], ["angle_axis"])
+        add("rotation_matrix_to_angle_axis(matrix)", lambda v: (U.rotation_matrix_to_angle_axis(U.angle_axis_to_rotation_matrix(v[0])) * rnd(1, 3, seed=18)).sum(), [aa0], ["angle_axis"])
+        add("rotation_matrix_to_quaternion(matrix)", lambda v: (U.rotation_matrix_to_quaternion(U.angle_axis_to_rotation_matrix(v[0])) * rnd(1, 4, seed=18)).sum(), [aa0], ["angle_axis"])
         add("euler_rotation_matrix", lambda v: (U.euler_rotation_matrix(v[0], order="ZXZ") * rnd(1, 3, 3, seed=18)).sum(), [rnd(1, 3, seed=19, scale=0.6)], ["angles"])
         q0 = torch.nn.functional.normalize(rnd(1, 4, seed=20) + torch.tensor([[1.5, 0, 0, 0]], dtype=T64), dim=-1)
         add("quaternion_to_rotation_matrix", lambda v: (U.quaternion_to_rotation_matrix(v[0]) * rnd(1, 3, 3, seed=18)).sum(), [q0], ["quaternion"])
@@ -348,6 +360,16 @@ def loss_fns(D: int) -> List[Fn]:
     pb = (smooth_img(D, 44, c=1) > 1.2).to(T64)
     fl_ = smooth_img(D, 45, c=D) * 0.2 - 0.2
     skip = {"label_smoothing", "lame_parameters", "masked_loss", "reduce_loss"}
+    # point set distances: w.r.t. BOTH point sets (symmetric / group-wise registration, or the moving set passed second)
+    import deepali.losses.pointset as LP
+
+    px = rnd(2, 6, D, seed=51, scale=0.8)
+    py = rnd(2, 6, D, seed=52, scale=0.8) + 0.05
+    pz = rnd(2, 9, D, seed=53, scale=0.8)
+    out.append(Fn(f"LandmarkPointDistance[{D}D]", lambda: ((lambda v: as64(LP.LandmarkPointDistance()(v[0], v[1]))), [px.clone().requires_grad_(True), py.clone().requires_grad_(True)], ["x", "y"]), "loss:pointset"))
+    out.append(Fn(f"ClosestPointDistance[{D}D]", lambda: ((lambda v: as64(LP.ClosestPointDistance()(v[0], v[1]))), [px.clone().requires_grad_(True), pz.clone().requires_grad_(True)], ["x", "y"]), "loss:pointset"))
+    out.append(Fn(f"ClosestPointDistance[3 sets][{D}D]", lambda: ((lambda v: as64(LP.ClosestPointDistance(scale=1)(v[0], v[1], v[2]))),
+                                                                  [px.clone().requires_grad_(True), pz.clone().requires_grad_(True), py.clone().requires_grad_(True)], ["x", "y1", "y2"]), "loss:pointset"))
     for name, fn in sorted(vars(L).items()):
         if not inspect.isfunction(fn) or fn.__module__ != L.__name__ or name.startswith("_") or name in skip:
             continue
